@@ -564,6 +564,84 @@ async fn listener_app<N: Nego>(sel: Result<(String, N), String>, out: Arc<Mutex<
 }
 
 // ------------------------------------------------------------------------------------------------
+// the listener hangs up right after its answer
+// ------------------------------------------------------------------------------------------------
+
+/// A lazy dialer sends header, proposal and request in one go; the listener agrees, answers and hangs up before the
+/// dialer reads. The carrier behaves like a yamux stream whose remote is gone: what was received is still served, writes
+/// and flushes fail with `WriteZero`. The negotiation succeeded and the answer arrived, so the dialer must get both
+/// (`Negotiated` tolerates exactly that flush error for this reason).
+fn run_hangup(lite_listener: bool, pay_d: usize, listener_first: bool) -> Vec<(String, String)> {
+    let desc = json!({"kind": "hangup", "lite_listener": lite_listener, "payload_dialer": pay_d, "first": if listener_first { "listener" } else { "dialer" }});
+    let rt = driver::runtime(1);
+    rt.block_on(async move {
+        let mut pd = pipe::Policy::default();
+        pd.gone_is_write_zero = true;
+        let (a, b, _h_d2l, h_l2d) = pipe::duplex(pd, pipe::Policy::default());
+        let a = Shaped { inner: a, split_at: None, nread: 0 };
+        let b = Shaped { inner: b, split_at: None, nread: 0 };
+        let sd: Arc<Mutex<Side>> = Arc::new(Mutex::new(Side { phase: "select", ..Default::default() }));
+        let wp_d = payload(pay_d, Dir::D2L);
+        let wp_l = payload(3, Dir::L2D);
+        let names = vec!["/a".to_string()];
+        let mut d = driver::Driver::new();
+        let fut_d: driver::BoxFut = {
+            let (o, wp, n, h, dn) = (sd.clone(), wp_d.clone(), wp_l.len(), h_l2d.clone(), names.clone());
+            Box::pin(async move {
+                let sel = lv::dialer_select_proto(a, dn, Ver::V1Lazy.lite()).await.map_err(|e| err_lite(&e));
+                dialer_app(sel, o, wp, n, h).await
+            })
+        };
+        let fut_l: driver::BoxFut = {
+            let (wp, ln, need) = (wp_l.clone(), names.clone(), pay_d);
+            Box::pin(async move {
+                // negotiate, read the request (if any), answer, hang up without any further read
+                async fn serve<N: Nego>(sel: Result<(String, N), String>, wp: Vec<u8>, need: usize) {
+                    let Ok((_, mut io)) = sel else { return };
+                    if need > 0 {
+                        let _ = read_n(&mut io, need).await;
+                    }
+                    let _ = io.write_all(&wp).await;
+                    let _ = io.flush().await;
+                }
+                if lite_listener {
+                    serve(lv::listener_select_proto(b, ln).await.map_err(|e| err_lite(&e)), wp, need).await
+                } else {
+                    serve(rf::listener_select_proto(b, ln).await.map_err(|e| err_ref(&e)), wp, need).await
+                }
+            })
+        };
+        if listener_first {
+            d.spawn("listener", fut_l);
+            d.spawn("dialer", fut_d);
+        } else {
+            d.spawn("dialer", fut_d);
+            d.spawn("listener", fut_l);
+        }
+        let finished = d.run_until_stalled(STEP_CAP);
+        let all_done = d.all_done();
+        drop(d);
+        let sd = sd.lock().clone();
+        let mut v = Vec::new();
+        if !finished || !all_done {
+            v.push(("terminate/hang/listener-hung-up".to_string(), format!("dialer did not terminate after the listener answered and hung up: phase={} outcome={:?}; {desc}", sd.phase, sd.outcome)));
+            return v;
+        }
+        match &sd.outcome {
+            Some(Ok(name)) if name == "/a" && sd.received == wp_l => {}
+            other => v.push((
+                "agree/answer-lost-after-listener-hung-up".to_string(),
+                format!(
+                    "the listener agreed on \"/a\", answered {} B and hung up; the dialer reports {:?} and received {} B (expected Ok(\"/a\") and the whole answer); {desc}",
+                    wp_l.len(), other, sd.received.len()
+                ),
+            )),
+        }
+        v
+    })
+}
+
+// ------------------------------------------------------------------------------------------------
 // one execution
 // ------------------------------------------------------------------------------------------------
 
@@ -1540,6 +1618,23 @@ pub fn run(ctx: &mut Ctx) {
     }
     ctx.cov("stream_jobs", jobs.len() as u64);
 
+    // ---- the listener hangs up right after its answer (lazy dialer) ----
+    {
+        let mut n = 0u64;
+        for lite_listener in [true, false] {
+            for pay_d in [0usize, 3] {
+                for listener_first in [false, true] {
+                    n += 1;
+                    for (sig, what) in run_hangup(lite_listener, pay_d, listener_first) {
+                        ctx.violation(Violation { signature: sig, what, replay: json!({"kind": "hangup", "lite_listener": lite_listener, "payload_dialer": pay_d, "listener_first": listener_first}) });
+                    }
+                }
+            }
+        }
+        evals += n;
+        ctx.sub("listener_hangs_up_after_answer", json!({"runs": n}));
+    }
+
     // ---- message based ----
     let mut msg_runs = 0u64;
     let mut msg_nontrivial = 0u64;
@@ -1699,6 +1794,18 @@ pub fn replay(case: &Value) -> Result<String, String> {
             }
         }
         "fallback-map" => replay_fallback(case),
+        "hangup" => {
+            let v = run_hangup(
+                case["lite_listener"].as_bool().unwrap_or(true),
+                case["payload_dialer"].as_u64().unwrap_or(0) as usize,
+                case["listener_first"].as_bool().unwrap_or(false),
+            );
+            if v.is_empty() {
+                Ok("the dialer got the negotiated protocol and the whole answer".into())
+            } else {
+                Err(v.iter().map(|(s, w)| format!("VIOLATION [{s}] {w}")).collect::<Vec<_>>().join("\n"))
+            }
+        }
         k => Err(format!("unknown case kind {k}")),
     }
 }
